@@ -20,16 +20,17 @@ EXTENDS Gensign, Json
 TraceLog == ndJsonDeserialize("trace.ndjson")
 VARIABLES l,       \* next line
           kind,    \* kind of the line consumed last: "reset" | "run" | "stat"
-          chpos    \* [1..64 -> set of byte values seen at that challenge position]
+          chpos    \* [1..ChMax -> set of byte values seen at that challenge position]
 tvars == <<vars, l, kind, chpos>>
 TrSc2(s) == {}
+ChMax == 128            \* challenge positions watched (longer challenges: the first 128 bytes)
 
 Rec == TraceLog[l]
 Frozen == UNCHANGED <<prevSig, nrun, hist, pc, hi, cj, todo, nf, dead>>
 RunKeys(o) == {o.fr[j].id : j \in {j2 \in DOMAIN o.fr : o.fr[j2].k = "add" /\ ~o.fr[j2].cert}} \cup {o.csr[m].key : m \in DOMAIN o.csr}
 
 TraceInit == /\ l = 2 /\ TraceLog[1].ev = "reset" /\ kind = "reset"
-             /\ ag = S(TraceLog[1].post.ag) /\ usedCh = {} /\ seenKeys = {} /\ chpos = [j \in 1..64 |-> {}]
+             /\ ag = S(TraceLog[1].post.ag) /\ usedCh = {} /\ seenKeys = {} /\ chpos = [j \in 1..ChMax |-> {}]
              /\ prevSig = [key |-> "none", data |-> ""] /\ nrun = 0 /\ hist = <<>> /\ pc = "done"
              /\ sc = [hs |-> <<>>, fok |-> FALSE] /\ r = [err |-> ""]
              /\ hi = 1 /\ cj = 1 /\ todo = {} /\ nf = 0 /\ dead = FALSE /\ pre = [ag |-> {}, used |-> {}, seen |-> {}]
@@ -45,7 +46,7 @@ RunStep == /\ l <= Len(TraceLog) /\ Rec.ev = "step" /\ Rec.e.op = "run"
            /\ pre' = [ag |-> ag, used |-> usedCh, seen |-> seenKeys]
            /\ usedCh' = usedCh \cup {Rec.e.r.chal[m].hx : m \in DOMAIN Rec.e.r.chal}
            /\ seenKeys' = seenKeys \cup RunKeys(Rec.e.r)
-           /\ chpos' = [j \in 1..64 |-> chpos[j] \cup {Rec.e.r.chal[m].data[j] : m \in {m2 \in DOMAIN Rec.e.r.chal : Len(Rec.e.r.chal[m2].data) >= j}}]
+           /\ chpos' = [j \in 1..ChMax |-> chpos[j] \cup {Rec.e.r.chal[m].data[j] : m \in {m2 \in DOMAIN Rec.e.r.chal : Len(Rec.e.r.chal[m2].data) >= j}}]
            /\ kind' = "run" /\ l' = l + 1 /\ Frozen
 
 StatStep == /\ l <= Len(TraceLog) /\ Rec.ev = "step" /\ Rec.e.op = "stat"
@@ -55,20 +56,25 @@ StatStep == /\ l <= Len(TraceLog) /\ Rec.ev = "step" /\ Rec.e.op = "stat"
 TraceNext == Reset \/ RunStep \/ StatStep
 TraceSpec == TraceInit /\ [][TraceNext]_tvars
 
-\* statistical reading of "unpredictable": over a batch of at least 32 challenges every byte position takes >= 2 values
-\* (pairwise distinctness over the batch is the freshness clause of C01_Run)
-ChalStatOK == Cardinality(usedCh) >= 32 => \A j \in 1..64 : Cardinality(chpos[j]) >= 2
+\* statistical reading of "unpredictable, server-chosen": over a batch of at least 32 challenges at least 16 byte positions
+\* take >= 2 values (no length or layout is demanded: a fixed label followed by a random nonce is fine; fewer than 16
+\* varying bytes is not).  Pairwise distinctness over the batch is the "fresh" clause of C01.
+ChalStatOK == Cardinality(usedCh) >= 32 => Cardinality({j \in 1..ChMax : Cardinality(chpos[j]) >= 2}) >= 16
 
 IsRun == kind' = "run"
-TC01 == [][(IsRun => C01_Run(sc', r', pre', ag')) /\ (kind' = "stat" => ChalStatOK)]_tvars
-TC02 == [][IsRun => C02_Run(sc', r', pre', ag')]_tvars
-TC03 == [][IsRun => C03_Run(sc', r', pre', ag')]_tvars
-TC04 == [][IsRun => C04_Run(sc', r', pre', ag')]_tvars
-\* the same formulas as reporting action constraints: one TLC run lists every rejected line
-Rep(name, F) == F \/ PrintT(<<"REJ", name, l>>)
-RepC01 == Rep("TC01", (IsRun => C01_Run(sc', r', pre', ag')) /\ (kind' = "stat" => ChalStatOK))
-RepC02 == Rep("TC02", IsRun => C02_Run(sc', r', pre', ag'))
-RepC03 == Rep("TC03", IsRun => C03_Run(sc', r', pre', ag'))
-RepC04 == Rep("TC04", IsRun => C04_Run(sc', r', pre', ag'))
+W01 == (IF IsRun THEN C01_Why(sc', r', pre', ag') ELSE {}) \cup (IF kind' = "stat" /\ ~ChalStatOK THEN {"challenge-statistics"} ELSE {})
+W02 == IF IsRun THEN C02_Why(sc', r', pre', ag') ELSE {}
+W03 == IF IsRun THEN C03_Why(sc', r', pre', ag') ELSE {}
+W04 == IF IsRun THEN C04_Why(sc', r', pre', ag') ELSE {}
+TC01 == [][W01 = {}]_tvars
+TC02 == [][W02 = {}]_tvars
+TC03 == [][W03 = {}]_tvars
+TC04 == [][W04 = {}]_tvars
+\* the same formulas as reporting action constraints: one TLC run lists every rejected line and the clauses it falsifies
+Rep(name, W) == W = {} \/ (PrintT(<<"REJ", name, l>>) /\ PrintT(<<"WHY", l, W>>))
+RepC01 == Rep("TC01", W01)
+RepC02 == Rep("TC02", W02)
+RepC03 == Rep("TC03", W03)
+RepC04 == Rep("TC04", W04)
 TraceAccepted == TLCGet("stats").diameter = Len(TraceLog)
 =============================================================================
